@@ -81,3 +81,64 @@ def generate_batch_subprocess(jobs: list[tuple], workdir: Path, hashseed: str | 
     if p.returncode != 0:
         raise RuntimeError(f"generation batch failed (seed {hashseed}): {err[-2000:]}")
     return json.loads(rf.read_text())
+
+
+def relative_import_check(root: Path | str) -> list[str]:
+    """Every relative import ANYWHERE in the package (module level, inside functions, under TYPE_CHECKING) must resolve to a file
+    of the generated tree and, for `from x import Name`, to a name bound at module level there."""
+    import ast
+    root = Path(root)
+    problems = []
+    defs: dict = {}
+
+    def names_of(path: Path) -> set:
+        if path not in defs:
+            try:
+                tree = ast.parse(path.read_text())
+            except SyntaxError:
+                defs[path] = set()
+                return defs[path]
+            out = set()
+            for n in ast.walk(tree):
+                if isinstance(n, (ast.ClassDef, ast.FunctionDef, ast.AsyncFunctionDef)):
+                    out.add(n.name)
+                elif isinstance(n, ast.Assign):
+                    for t in n.targets:
+                        if isinstance(t, ast.Name):
+                            out.add(t.id)
+                elif isinstance(n, ast.AnnAssign) and isinstance(n.target, ast.Name):
+                    out.add(n.target.id)
+                elif isinstance(n, (ast.Import, ast.ImportFrom)):
+                    for a in n.names:
+                        out.add((a.asname or a.name).split(".")[0])
+            defs[path] = out
+        return defs[path]
+
+    for f in root.rglob("*.py"):
+        try:
+            tree = ast.parse(f.read_text())
+        except SyntaxError as e:
+            problems.append(f"{f.relative_to(root)}: SyntaxError {e.msg} line {e.lineno}")
+            continue
+        for n in ast.walk(tree):
+            if isinstance(n, ast.ImportFrom) and n.level > 0:
+                base = f.parent
+                for _ in range(n.level - 1):
+                    base = base.parent
+                if base != root and root not in base.parents:
+                    problems.append(f"{f.relative_to(root)}: relative import escapes the package (level {n.level})")
+                    continue
+                target = base.joinpath(*(n.module.split(".") if n.module else []))
+                if (target.with_suffix(".py")).exists():
+                    tf = target.with_suffix(".py")
+                elif (target / "__init__.py").exists():
+                    tf = target / "__init__.py"
+                else:
+                    problems.append(f"{f.relative_to(root)}: imports missing module {'.' * n.level}{n.module or ''}")
+                    continue
+                for a in n.names:
+                    if a.name == "*":
+                        continue
+                    if a.name not in names_of(tf) and not (tf.name == "__init__.py" and ((tf.parent / (a.name + ".py")).exists() or (tf.parent / a.name).is_dir())):
+                        problems.append(f"{f.relative_to(root)}: imports name {a.name} which {tf.relative_to(root)} does not define")
+    return problems
